@@ -325,7 +325,7 @@ def oracle(ctx, hints, broken):
             v = check_case(sj, h['case'])
             n += 1
             if v:
-                viol.append(v)
+                C.push(viol, v)
     deep = bool(broken) or ctx['tier'] == 'thorough'
     b, k = basis_sweep(sj, 6 if deep else 3)
     viol += b
@@ -343,14 +343,14 @@ def oracle(ctx, hints, broken):
                     v = check_case(sj, c)
                     n += 1
                     if v:
-                        viol.append(v)
+                        C.push(viol, v)
                         if len(viol) > 8:
                             return dict(evaluations=n, violations=viol, rule=RULE)
     for c in gen_cases(rng, 400 if not deep else 4000):
         v = check_case(sj, c)
         n += 1
         if v:
-            viol.append(v)
+            C.push(viol, v)
             if len(viol) > 8:
                 break
     return dict(evaluations=n, violations=viol, rule=RULE)
